@@ -490,8 +490,8 @@ class C23(SelLawsEngine):
     prop = "C23"
     level = "model_checking"
     q_cfg = {"quick": "MC_SelLaws_C23_q.cfg", "thorough": "MC_SelLaws_C23_t.cfg"}
-    rule = ("Universe of 192 (thorough: 268) selector lists defined in MC_SelLaws.tla (26 compounds over type, universal, class, id, attribute, "
-            "pseudo-class, pseudo-element, :is()/:not() selectors; all two-compound complex selectors over a core set of 6 (7) compounds x 4 "
+    rule = ("Universe of 238 (thorough: 334) selector lists defined in MC_SelLaws.tla (35 compounds over type, universal, class, id, attribute, "
+            "pseudo-class, pseudo-element, :is()/:where()/:not() selectors, also beside what their arguments match (`:is(.c)`, `.c`, `.c:is(.d)`); all two-compound complex selectors over a core set of 6 (7) compounds x 4 "
             "combinators; three- and four-compound ones; lists of two; plus a second table block of 35 (55) selectors of up to 5 compounds with "
             "repeated names: an explicit combinator above a descendant combinator with ancestors inserted at the latter). TLC emits every ordered pair, every one-step Derive pair (adding a simple selector to a compound, prepending an "
             "ancestor/parent prefix, inserting ancestors - also a copy of the compound on the left - at a descendant combinator), every list member, in text form and in the list form the selector functions return; rsass answers "
